@@ -58,6 +58,9 @@ def main(argv):
         incomplete = None
         try:
             mod.run(run)
+            from sa.rules.includes import INCLUDES
+            for inc in INCLUDES.get(prop, []):
+                run.include(inc)
         except AnalysisError as e:
             # a violation established before the analysis lost its footing stands on its own (the code it
             # was read from is the code under test); without one, an analysis that cannot proceed is exit 2
